@@ -1,5 +1,5 @@
 (* C13 — property theorems only. *)
-From C13 Require Import Model Spec Corr Proofs.
+From C13 Require Import Model Spec Corr Proofs ProofsRes ProofsRefine Regress.
 Open Scope N_scope.
 
 (* (1) In any package a name resolves to the package's own definition if it has one, otherwise to an
@@ -40,21 +40,90 @@ Theorem C13_own_variable_survives_history : forall ops s p n a,
 Proof. exact own_v_survives. Qed.
 Print Assumptions C13_own_variable_survives_history.
 
-(* (3) FULL STATEMENT of the property for the code model M (not proved in this development yet):
-        forall ops, guard_run PK NM (sinit 0) ops = true ->
-                    run PK VN FN (init 0) ops = srun PK VN FN (sinit 0) ops
-   i.e. after every guarded history every resolution computed from the implementation's tables
-   equals the one recomputed from the graph.  It is EVALUATED on every generated history of every
-   run (Corr.check_case code 3 fires if a guarded prefix has M <> S) but is not a theorem.
-   What is machine-checked about M here are the refutations: for each clause of the guard a witness
-   history outside it on which the faithful model differs from S (each is a known finding). *)
+(* (3) THE REFINEMENT M = S.  After ANY history (any length) of defpackage-level operations that stays
+   inside the guard and keeps the name discipline (a name is used as a variable: setq/defvar/makunbound
+   and variable queries on VN = {0,1}; or as a function: defun/fmakunbound and calls on FN = {2,3};
+   export/unexport on either), every query the harness makes -- the value of every variable name and the
+   result of calling every function name, plain, pkg:name and pkg::name, from every current package --
+   answers in the code model M (the denormalised tables of package.go, entries pushed at
+   use/export/define time) exactly what the specification S answers (visibility recomputed from the
+   use/export graph), after every step of the history.  "No operation leaves a stale or private binding
+   visible" for all guarded histories, not only the generated ones. *)
+Theorem C13_refinement : forall ops,
+  forallb (sorted_op VN FN) ops = true -> guard_run PK NM (sinit 0) ops = true ->
+  run PK VN FN (init 0) ops = srun PK VN FN (sinit 0) ops.
+Proof. exact refinement_PK. Qed.
+Print Assumptions C13_refinement.
+
+(* the same for an arbitrary history on its longest guarded prefix (what Corr.check_case evaluates per run) *)
+Theorem C13_refinement_prefix : forall ops,
+  let g := sorted_guard_prefix PK VN FN (sinit 0) ops in
+  firstn g (run PK VN FN (init 0) ops) = firstn g (srun PK VN FN (sinit 0) ops).
+Proof. exact refinement_prefix_PK. Qed.
+Print Assumptions C13_refinement_prefix.
+
+(* hence the self-check code 3 of the correspondence (model = implementation but model <> S inside the
+   guard) cannot occur for any case whatsoever *)
+Theorem C13_selfcheck_unreachable : forall c, check_case c <> 3.
+Proof. exact selfcheck_unreachable. Qed.
+Print Assumptions C13_selfcheck_unreachable.
+
+(* (3a) general form: any package universe P (the guard only needs it to contain the packages used), any
+   disjoint name sets VN / FN, any start package, any list PQ of observing packages.  The abstraction
+   relation Inv (variable heaps equal, function cells agree on home package and export flag and, for
+   live cells, the Lambda a FuncInfo refers to holds the value S has; every table entry of M equals the resolution of S -- for variable names in
+   the variable table, for every name in the function table; Uses equal, Users the inverse of Uses; own
+   cells carry their home package, are distinct, variables of VN are bound; every exported own cell of a
+   used package is what the user resolves to) holds initially, is preserved by every guarded step, and
+   makes every query agree. *)
+Theorem C13_refinement_general : forall P VN FN, disjoint_names VN FN = true ->
+  forall PQ p0 ops,
+  forallb (sorted_op VN FN) ops = true -> guard_run P (VN ++ FN) (sinit p0) ops = true ->
+  run PQ VN FN (init p0) ops = srun PQ VN FN (sinit p0) ops.
+Proof. exact refinement_general. Qed.
+Print Assumptions C13_refinement_general.
+
+Theorem C13_step_preserves_relation : forall P VN FN, disjoint_names VN FN = true ->
+  forall m s o, Inv P VN FN m s -> sorted_op VN FN o = true -> guard_step P (VN ++ FN) s o = true ->
+  Inv P VN FN (step m o) (sstep s o).
+Proof. exact step_preserves. Qed.
+Print Assumptions C13_step_preserves_relation.
+
+(* the tables of M are the resolution of S after every guarded history (state form) *)
+Theorem C13_tables_are_the_graph : forall P VN FN, disjoint_names VN FN = true ->
+  forall p0 ops, forallb (sorted_op VN FN) ops = true -> guard_run P (VN ++ FN) (sinit p0) ops = true ->
+  let m := fold_left step ops (init p0) in let s := fold_left sstep ops (sinit p0) in
+  (forall p n, mem n VN = true -> vars m p n = resolve_v s p n) /\
+  (forall p n, funcs m p n = resolve_f s p n) /\
+  (forall a, vheap m a = s_vheap s a) /\ (forall a, frel (fheap m a) (s_fheap s a)).
+Proof. exact tables_are_the_graph. Qed.
+Print Assumptions C13_tables_are_the_graph.
+
+(* (3b) outside the guard the faithful model M differs from S: for each clause of the guard a witness
+   history (each a known finding, replayed on the implementation every run); the last two were found by
+   this proof (the per-run evaluation had not met them). *)
 Theorem C13_outside_guard_refuted :
   forallb differs witnesses = true /\ forallb (fun w => negb (guard_run PK NM (sinit 0%N) w)) witnesses = true.
 Proof. exact outside_guard_refuted. Qed.
 Print Assumptions C13_outside_guard_refuted.
 
-(* (4) the guard is satisfiable by a history that uses every guarded operation, and there M = S *)
+(* (3c) the name discipline is necessary: a guarded history using one name as function and variable where M <> S *)
+Theorem C13_name_discipline_needed_refuted :
+  guard_run PK NM (sinit 0%N) w_unsorted = true /\ differs w_unsorted = true /\
+  forallb (sorted_op VN FN) w_unsorted = false.
+Proof. exact unsorted_refuted. Qed.
+Print Assumptions C13_name_discipline_needed_refuted.
+
+(* (4) the guard is satisfiable by a name-disciplined history that uses every guarded operation, and there M = S *)
 Theorem C13_guard_nonvacuous :
-  guard_run PK NM (sinit 0%N) ex_guarded = true /\ differs ex_guarded = false /\ List.length ex_guarded = 16%nat.
+  guard_run PK NM (sinit 0%N) ex_guarded = true /\ forallb (sorted_op VN FN) ex_guarded = true /\
+  differs ex_guarded = false /\ List.length ex_guarded = 16%nat.
 Proof. exact guarded_example. Qed.
 Print Assumptions C13_guard_nonvacuous.
+
+(* (5) regression of the model against the implementation: a history observed on the unchanged code where
+   a stale FuncInfo held by users shows the body of a LATER defun (Package.DefLambda patches the first
+   Lambda of the name in place); the model reproduces every one of its 12 x 84 observations. *)
+Theorem C13_regression_lambda_patch : check_case regress_lambda_patch = 0%N.
+Proof. exact regress_lambda_patch_ok. Qed.
+Print Assumptions C13_regression_lambda_patch.
